@@ -2,7 +2,7 @@
    extracted OCaml runner and by the in-Coq vm_compute cross-check on identical input. *)
 From PS Require Import Lib.Base Generated.Consts Model.SdTypes Model.Config.
 From PS Require Import Lib.Struct Model.Someip Model.SdCodec Model.Session Model.ServiceRecv.
-From PS Require Import Spec.C19Spec Spec.C07Spec Spec.C16Spec Spec.C01Spec.
+From PS Require Import Spec.C19Spec Spec.C07Spec Spec.C16Spec Spec.C01Spec Spec.C02Spec.
 
 Definition bad : sexp := L [A 255; A 255; A 255].
 
@@ -52,6 +52,8 @@ Definition dispatch_codec (op : N) (arg : sexp) : option sexp :=
   | 209, h => let? h' := d_sd h in Some (sres B (do a <- assign_sd h'; build_sd a))
   | 210, b => let? b' := dB b in
               Some (sres (s_pair s_sd B) (do (h, r) <- parse_sd b'; do h' <- resolve_sd h; Ok (h', r)))
+  | 212, b => let? b' := dB b in Some (sopt s_sd (ref_decode b'))
+  | 213, L [m; b] => let? m' := d_sd m in let? b' := dB b in Some (sbool (check_C02 m' b'))
   | 211, L [h; n] => let? h' := dlist d_opt h in let? n' := dlist d_opt n in
                      Some (sres (sopt A) (find_run h' n'))
   | _, _ => None
